@@ -214,7 +214,7 @@ type stats struct {
 	maxDepth, groups, keys                  int
 	sepTab, sepNL, sepRun, padIn, zeroGroup int
 	lastNested, midNested, strayR          int
-	specInBraces                            int
+	specInBraces, escBlank                  int
 }
 
 // printer writes rare syntax. Every choice is taken through choose(n) in
@@ -287,6 +287,12 @@ func (p *printer) renderRune(r rune, idx, depth int, quoted bool) {
 		case x == '"' && !isC:
 			out = append(out, '\\', x)
 			escapedHere = true
+		case !quoted && depth > 0 && i == n-2 && unicode.IsSpace(x):
+			// a blank of a bare (unquoted) argument: literal for the splitter of its own statement
+			// only when escaped there ("\x makes any character literal")
+			out = append(out, '\\', x)
+			escapedHere = true
+			p.st.escBlank++
 		case isC && p.mnem && (x == '\n' || x == '\t' || x == '\r') && (depth == 0 || (p.optMask>>(uint(idx*7+i)&31))&1 == 1):
 			m := map[rune]rune{'\n': 'n', '\t': 't', '\r': 'r'}[x]
 			out = append(out, '\\', m)
@@ -382,7 +388,8 @@ func (p *printer) arg(nd Node, depth int) {
 	switch nd.K {
 	case "lit":
 		s := string(nd.S)
-		if needsQuote(s) || p.choose(3) == 0 {
+		bareBlank := s != "" && needsQuote(s) && p.choose(4) == 0 // blanks escaped instead of quoted
+		if (needsQuote(s) && !bareBlank) || (!bareBlank && p.choose(3) == 0) {
 			p.st.quoted++
 			if s == "" {
 				p.st.emptyQ++
